@@ -3,6 +3,7 @@ package props
 import (
 	"fmt"
 	"math/rand/v2"
+	"regexp"
 	"strings"
 	"time"
 
@@ -22,8 +23,8 @@ func (*c26) ID() string { return "C26" }
 func (*c26) Rule() string {
 	return "programs from (1) the runnable generator over the features the property lists (control flow, functions/return, locals, subshells, command substitution, pipelines of builtins and allowlisted tools, here-documents and here-strings, file redirections, case, [[ ]], test, arrays, set -e, pipefail, EXIT/ERR traps, break/continue levels), (2) the repo's own runTests programs that are safe, deterministic and not marked #IGNORE, unmodified (also used to calibrate the bash oracle against the repo's recorded output) and (3) numeric-argument mutants of those; each is run by interp.Runner and by bash 5.2 in fresh scratch directories with the same sealed environment; stdout bytes and exit status must be equal. A program on which bash writes to stderr is out of domain (usage errors and diagnostics are not 'the supported language'). Non-trivial: the program has at least 3 feature tags or comes from the repo; distinct: hash of the source."
 }
-func (*c26) NumCases(tier string) int      { return tierN(tier, 1000, 40000) }
-func (*c26) MinNontrivial(tier string) int { return tierN(tier, 500, 15000) }
+func (*c26) NumCases(tier string) int      { return tierN(tier, 1000, 20000) }
+func (*c26) MinNontrivial(tier string) int { return tierN(tier, 500, 7500) }
 func (*c26) New() any                      { return &ProgCase{} }
 func (*c26) CaseTimeout() time.Duration    { return 90 * time.Second }
 func (*c26) Assumptions() []string {
@@ -56,6 +57,8 @@ func (p *c26) avoid() map[string]bool {
 	}
 	return av
 }
+
+var c26LetRedirRe = regexp.MustCompile(`(^|[;&|\n{(]|then|do|else)[ \t]*let [^"'\n;]*[<>]`)
 
 func (p *c26) Gen(i int, r *rand.Rand) any {
 	switch k := r.IntN(20); {
@@ -96,6 +99,9 @@ func (p *c26) Run(payload any) mon.Result {
 	}
 	if _, err := parseAs([]byte(c.Src), langByName("bash"), true); err != nil {
 		return mon.Result{Verdict: mon.OutOfDomain, Reason: "does-not-parse"}
+	}
+	if c26LetRedirRe.MatchString(c.Src) && p.env.Findings.Active("C26-let-unquoted-comparison-is-a-redirection") {
+		return mon.Result{Verdict: mon.Known, Reason: "C26-let-unquoted-comparison-is-a-redirection"}
 	}
 	bo, err := p.inShell("bash", c.Src)
 	if err != nil {
